@@ -218,8 +218,112 @@ fn seqs(alpha: &[A], n: usize) -> Vec<Vec<A>> {
     out
 }
 
-fn cases(tier: Tier) -> Vec<Case> {
+// ------------------------------------------------------------------ the mailbox gets its turn
+//
+// "An explicit stop or handle drop terminates it even if the stream never ends" - also when the
+// stream is *ready* every time the loop looks. A never-ending ready stream cannot be explored
+// (no execution would end), so the scene uses a backlog of K ready items behind which the stream
+// stays open and silent, and a stop request (or the last handle going away) that is in the
+// mailbox before the first item is handled. Over ALL schedules and tie-breaks there must be
+// executions in which the actor ends before it has worked through the whole backlog: if in every
+// single one the K items come first, the loop serves the stream ahead of the mailbox, and with
+// an endless ready stream it would never stop. (A set-valued oracle: evaluated once the case has
+// been explored completely.)
+
+const BACKLOG: u32 = 4;
+
+struct Fair {
+    /// property the scene reports under (C13, and C04 for its "an accepted stop terminates")
+    pid: &'static str,
+    via: StreamVia,
+    by_drop: bool,
+    /// fewest items handled before stopped() over all executions seen so far
+    fewest: std::cell::Cell<Option<usize>>,
+    executions: std::cell::Cell<u64>,
+}
+
+impl crate::check::Scene for Fair {
+    fn roles(&self) -> Vec<RoleCfg> {
+        // each handler takes a scheduling round, as a real handler would
+        vec![RoleCfg { default_work: Work { yields: 1, ..Work::default() }, ..RoleCfg::default() }]
+    }
+    fn setup(&self, exec: &crate::vexec::Exec) {
+        use crate::ops::{run_client, Handles};
+        let items: Vec<u32> = (0..BACKLOG).map(|i| 70 + i).collect();
+        let addr = match crate::scenes::spawn_probe_on_stream(0, self.via, &items, false, None) {
+            crate::scenes::OwningOrAddr::Own(o) => o.detach(),
+            crate::scenes::OwningOrAddr::Addr(a) => a,
+        };
+        let ops = if self.by_drop { vec![Op::Drop(H::Addr(0))] } else { vec![Op::Stop(H::Addr(0)), Op::Await(H::Addr(0))] };
+        // the request is issued here, before any task runs: it is in the mailbox (or the
+        // mailbox is closed) before the loop's first iteration
+        let mut h = Handles::with_addr(addr);
+        if self.by_drop {
+            h.addr[0] = None;
+        } else if let Some(a) = h.addr[0].as_mut() {
+            let _ = a.stop();
+        }
+        exec.spawn_client(0, run_client(0, h, if self.by_drop { vec![] } else { ops[1..].to_vec() }));
+    }
+    fn check(&self, t: &Trace) -> Vec<Violation> {
+        let an = An::new(t.log);
+        let mut out = vec![];
+        if an.task_end(0).is_none() || !an.exits.iter().any(|e| e.cb == Cb::Stopped) {
+            out.push(Violation {
+                clause: "stop-or-drop-terminates",
+                key: format!("{}/not-terminated-behind-a-ready-backlog", self.pid),
+                detail: "the actor did not terminate gracefully although it was stopped / its last handle dropped".into(),
+            });
+        }
+        out
+    }
+    fn observe(&self, t: &Trace) {
+        let an = An::new(t.log);
+        let Some(st) = an.enters.iter().find(|e| e.cb == Cb::Stopped).map(|e| e.idx) else { return };
+        let before = an.enters.iter().filter(|e| matches!(e.cb, Cb::Item(_)) && e.idx < st).count();
+        self.executions.set(self.executions.get() + 1);
+        self.fewest.set(Some(self.fewest.get().map_or(before, |f| f.min(before))));
+    }
+    fn finish(&self, complete: bool) -> Vec<Violation> {
+        if !complete {
+            return vec![];
+        }
+        crate::check::oblige("mailbox-gets-its-turn");
+        match self.fewest.get() {
+            Some(f) if (f as u32) < BACKLOG => vec![],
+            other => vec![Violation {
+                clause: "mailbox-gets-its-turn",
+                key: format!("{}/stream-served-ahead-of-the-mailbox/{}", self.pid, if self.by_drop { "drop" } else { "stop" }),
+                detail: format!(
+                    "in all {} executions the actor handled the whole backlog of {BACKLOG} ready items before it reacted to the {} that was already waiting (fewest items before stopped(): {other:?}): a stream that is always ready would keep it alive forever",
+                    self.executions.get(),
+                    if self.by_drop { "closed mailbox" } else { "stop request" }
+                ),
+            }],
+        }
+    }
+}
+
+pub fn fair_cases(pid: &'static str) -> Vec<Case> {
     let mut v = vec![];
+    for via in [StreamVia::SpawnOnStream, StreamVia::BuildOnStream, StreamVia::BoundedOnStream(1)] {
+        for by_drop in [false, true] {
+            if by_drop && pid != "C13" {
+                continue;
+            }
+            v.push(Case {
+                desc: format!("stream [ready backlog of {BACKLOG}, {} already waiting] via={via:?}", if by_drop { "closed mailbox" } else { "stop request" }),
+                exec: ExecCfg { horizon: 30, ..ExecCfg::default() },
+                bound: None,
+                scene: Box::new(Fair { pid, via, by_drop, fewest: Default::default(), executions: Default::default() }),
+            });
+        }
+    }
+    v
+}
+
+fn cases(tier: Tier) -> Vec<Case> {
+    let mut v = fair_cases("C13");
     let vias = [StreamVia::SpawnOnStream, StreamVia::BuildOnStream, StreamVia::BoundedOnStream(1)];
     let alpha = [A::Send, A::Call, A::Stop, A::CtxStop, A::Drop];
     let f = |ids: &[u32], close: bool| -> Vec<Op> {
@@ -304,7 +408,7 @@ pub fn property() -> Property {
     Property {
         id: "C13",
         cases,
-        clauses: &["items-in-order-once", "terminates", "all-items-when-outliving-stream"],
+        clauses: &["mailbox-gets-its-turn", "items-in-order-once", "terminates", "all-items-when-outliving-stream"],
         full_rerun_check: true,
         assumptions: &[
             "a never-ending stream that is always ready is excluded: terminating it on stop relies on the fairness of the random tie-break (probabilistic, not a bounded-exploration property)",
